@@ -132,6 +132,12 @@ def flySide (unk : Int) (a : Adj) : Py (List Expr) := do
   let c1 ← ensure1 (← thenE a.inE (← orPy z u))
   .ok [c0, c1]
 
+/-- Body of `for i in range(4): if adj[i] is not None and i != out_idx: …` for the entry `(adj[i], i)`. -/
+def flyRestStep (outIdx : Nat) (unk : Int) (ai : Option Adj × Nat) : Py (List Expr) :=
+  match ai.1 with
+  | some b => if ai.2 != outIdx then flySide unk b else .ok []
+  | none => .ok []
+
 /-- The branch `problem[y][x][0] != "."` once `out_idx` is known; the Boolean says whether the `break` was taken. -/
 def flyCs (adj : List (Option Adj)) (outIdx : Nat) (target unk : Int) : Py (List Expr × Bool) :=
   match adj[outIdx]? with
@@ -142,10 +148,7 @@ def flyCs (adj : List (Option Adj)) (outIdx : Nat) (target unk : Int) : Py (List
   | some (some a) => do
     let c0 ← ensure1 a.outE
     let c1 ← ensure1 (← cmpPy .eq a.nt (.litI target))
-    let rest ← adj.zipIdx.mapM fun (ai : Option Adj × Nat) =>
-      match ai.1 with
-      | some b => if ai.2 != outIdx then flySide unk b else .ok []
-      | none => .ok []
+    let rest ← adj.zipIdx.mapM (flyRestStep outIdx unk)
     .ok (c0 :: c1 :: rest.flatten, false)
 
 /-- The constraint of the pair `(i, j)` of sides of an empty cell. -/
@@ -161,6 +164,13 @@ def pairC (unk : Int) (i j : Nat) (a b : Adj) : Py Expr := do
     let e ← cmpPy .eq a.nt s
     ensure1 (← thenE g (← orPy pq e))
 
+/-- Body of `for i in range(4): for j in range(4): if adj[i] is not None and adj[j] is not None and i != j: …`
+for the entries `(adj[i], i)`, `(adj[j], j)`. -/
+def pairStep (unk : Int) (ai bj : Option Adj × Nat) : Py (List Expr) :=
+  match ai.1, bj.1 with
+  | some a, some b => if ai.2 != bj.2 then (pairC unk ai.2 bj.2 a b).map ([·]) else .ok []
+  | _, _ => .ok []
+
 /-- The `else` branch (empty cell). -/
 def emptyCs (adj : List (Option Adj)) (unk : Int) : Py (List Expr) := do
   let present := adj.filterMap id
@@ -169,11 +179,7 @@ def emptyCs (adj : List (Option Adj)) (unk : Int) : Py (List Expr) := do
   let cin' ← countTrue (present.map Adj.inE)
   let cout ← countTrue (present.map Adj.outE)
   let c1 ← ensure1 (← cmpPy .eq cin' cout)
-  let pairs ← adj.zipIdx.mapM fun (ai : Option Adj × Nat) =>
-    adj.zipIdx.mapM fun (bj : Option Adj × Nat) =>
-      match ai.1, bj.1 with
-      | some a, some b => if ai.2 != bj.2 then (pairC unk ai.2 bj.2 a b).map ([·]) else .ok []
-      | _, _ => .ok []
+  let pairs ← adj.zipIdx.mapM fun (ai : Option Adj × Nat) => adj.zipIdx.mapM (pairStep unk ai)
   .ok (c0 :: c1 :: (pairs.map List.flatten).flatten)
 
 /-- Body of the main double loop for the cell `(y, x)`; the Boolean says whether the `break` was taken. -/
@@ -218,6 +224,18 @@ def rankCs (o : BinOp) (line ign : Arr2) (rank : Arr2) (k1 k2 : Key2) : Py (List
   let c ← binop o a b
   ensureV (← callM .then_ g [c])
 
+/-- `solver.ensure(BoolArray1D(list(has_line)) == (BoolArray1D(list(line_ul)) | BoolArray1D(list(line_dr))))`
+and `solver.ensure(~(BoolArray1D(list(line_ul)) & BoolArray1D(list(line_dr))))`. -/
+def orientCs (hl ul dr : Frame) : Py (List Expr) := do
+  let c1 ← ensureV (← binop .eq (frame1D hl) (← binop .or_ (frame1D ul) (frame1D dr)))
+  let c2 ← ensureV (← unop .invert (← binop .and_ (frame1D ul) (frame1D dr)))
+  .ok (c1 ++ c2)
+
+/-- `solver.ensure(count_true(ignored_edge) == 1)`. -/
+def ignoredCs (ig : Frame) : Py (List Expr) := do
+  let ct ← countTrueA [.leaf (frame1D ig)]
+  ensureV (← binop .eq (.scalar ct) (.scalar (.litI 1)))
+
 /-- The program posted by `solve_firefly(height, width, problem)`. -/
 def program (pb : Problem) : Py PuzzleProg := do
   -- `bool_array` with a negative size / `int_array(…, 0, -1)`: ValueError on every board with a zero dimension
@@ -227,10 +245,8 @@ def program (pb : Problem) : Py PuzzleProg := do
   let N := nEdges h w
   let v := mkVars h w
   let keys ← frameKeys v.hasLine []
-  let c1 ← ensureV (← binop .eq (frame1D v.hasLine) (← binop .or_ (frame1D v.ul) (frame1D v.dr)))
-  let c2 ← ensureV (← unop .invert (← binop .and_ (frame1D v.ul) (frame1D v.dr)))
-  let ct ← countTrueA [.leaf (frame1D v.ignored)]
-  let c3 ← ensureV (← binop .eq (.scalar ct) (.scalar (.litI 1)))
+  let c12 ← orientCs v.hasLine v.ul v.dr
+  let c3 ← ignoredCs v.ignored
   let rankDecls ← intArrayDecls (h * w) 0 ((h : Int) * w - 1)
   let colL : Key2 := .pair fullSlice (sl none (some (-1)))
   let colR : Key2 := .pair fullSlice (sl (some 1) none)
@@ -245,7 +261,7 @@ def program (pb : Problem) : Py PuzzleProg := do
   let dV ← intArrayDecls ((h - 1) * w) 0 (maxN + 1)
   let rows ← (List.range h).mapM fun y => rowCs (cellCs pb v maxN y) (List.range w)
   .ok { decls := List.replicate (4 * N) .bool ++ rankDecls ++ dH ++ dV,
-        cs := c1 ++ c2 ++ c3 ++ c4 ++ c5 ++ c6 ++ c7 ++ rows.flatten,
+        cs := c12 ++ c3 ++ c4 ++ c5 ++ c6 ++ c7 ++ rows.flatten,
         keys := keys }
 
 end Cspuz.Puzzles.Firefly
